@@ -272,7 +272,8 @@ endpats: Final = {
     "'''": r"(?:[^'\\]|\\.|'(?!''))*'''",
     '"""': r'(?:[^"\\]|\\.|"(?!""))*"""',
 }
-StartLBrace = r".*?(?=\{(?!\{)){"
+# literal part of an f-string up to the next replacement field; like endpats it never runs past the closing quote
+StartLBrace: Final = {quote: pat[: pat.rindex(")*") + 2] + r"?(?=\{(?!\{)){" for quote, pat in endpats.items()}
 EndRBrace = r".*?(?=\}(?!\}))}"
 
 tabsize = 8
@@ -479,7 +480,7 @@ def next_psuedo_matches(state: TokenizerState) -> TokenInfo | None:
         quote = match.group("Quote") or '"'
         if "f" in token.lower():
             token_type = Token.FSTRING_START
-            pattern = choice(LBrace=StartLBrace, End=endpats[quote])
+            pattern = choice(LBrace=StartLBrace[quote], End=endpats[quote])
             state.add_prog(end, end, pattern=pattern, quote=quote, mode=ModeMiddle(state.parenlev))
         else:
             pattern = endpats[quote]
